@@ -223,6 +223,10 @@ def otherCause (plan : Cb → List Act) (x : CbEv) : Bool :=
   -- an on_error handler that itself raises: its exception propagates and ends the connection
   (x.cb = .onError && actOf plan x.cb x.k = .raise)
 
+/-- a callback asked for the end of the run: close(), KeyboardInterrupt, or an on_error handler that raises -/
+def otherCauseNoErr (plan : Cb → List Act) (x : CbEv) : Bool :=
+  (actOf plan x.cb x.k = .close || actOf plan x.cb x.k = .ki) || (x.cb = .onError && actOf plan x.cb x.k = .raise)
+
 /-- arrival time and body of the close frame in a script (if it is the first terminator) -/
 def closeFrameOf : Nat → List TEv → Option (Nat × Bytes)
   | _, [] => none
@@ -338,8 +342,20 @@ def c15Run (c : Cfg) (tr : Trace) (anns : List CbEv) (world : List Dial) : List 
   let v5 := anns.flatMap fun x =>
     if x.cb ≠ .onClose && actOf c.plan x.cb x.k = .close &&
        ds.any (fun (p, _, _) => decide (p > x.pos)) then ["stops:dial-after-app-close"] else []
-  -- failed dial with reconnect on: no on_close until the end (checked by onceLast) and a retry follows
-  v1 ++ v2 ++ v3 ++ v4 ++ v5
+  -- with reconnection on, a run may only return because the server closed the connection or the application
+  -- asked for it (close(), KeyboardInterrupt, a failing on_error handler) -- never after a mere loss
+  let v6 := match lastEv tr with
+    | some (.returned _) =>
+      let asked := anns.any (otherCauseNoErr c.plan) || tr.any (fun te => te.2 = .closeCall)
+      let tEnd := match tr.getLast? with | some te => te.1 | none => 0
+      let byFrame := match ds.getLast? with
+        | some (_, t0, _) => match world.getD (ds.length - 1) .refused with
+          | .established script => (match closeFrameOf t0 script with | some (tc, _) => decide (tc ≤ tEnd) | none => false)
+          | _ => false
+        | none => false
+      if asked || byFrame then [] else ["retry:gave-up-after-loss"]
+    | _ => []
+  v1 ++ v2 ++ v3 ++ v4 ++ v5 ++ v6
 
 /-! ### all runs of a scenario -/
 
